@@ -1,4 +1,122 @@
-(* C15 -- placeholder while the tie is brought up; theorems follow. *)
-From Coq Require Import NArith List Bool.
-From Y Require Import Prelude Node NodeOps OpsRun.
-Theorem C15_placeholder : True. Proof. exact I. Qed.
+(* C15 -- structural seasoning transforms are inverse pairs and no-ops when not applicable.
+   Statements only; proofs in Proofs/TransformProofs.v.  Model: Model/NodeOps.v, tied to
+   yatiml/helpers.py by the correspondence check (harness/props/c15.py). *)
+From Coq Require Import NArith ZArith List Bool String.
+Import ListNotations.
+From Y Require Import Prelude Node Tables NodeOps OpsRun AccessorProofs TransformProofs.
+Open Scope N_scope.
+
+(* seq_attribute_to_map then map_attribute_to_seq restores every item up to the position of the key
+   attribute (key_last) and marks (erase), for sequences of any length of plain mappings with unique string
+   keys, provided a named value attribute does not itself hold a mapping (part of plain_item) *)
+Theorem C15_inverse_seq_map : forall a k va strict t ps m ts items ms keys,
+  get_attr_ps a ps = Ok (Seq ts items ms) ->
+  Forall2 (plain_item k va) items keys -> keys_unique [] keys = true ->
+  exists n1 n2 items',
+    seq_attribute_to_map a k va strict (Map t ps m) = Ok n1 /\
+    map_attribute_to_seq a k va n1 = Ok n2 /\
+    n2 = Map t (set_attr_ps a (Seq tag_seq items' ms) ps) m /\
+    Forall2 (fun it' itk => exists ips im, fst itk = Map tag_map ips im /\
+                             erase it' = Map tag_map (erase_ps (key_last k (snd itk) ips)) nomark)
+            items' (combine items keys).
+Proof. exact inverse_seq_map. Qed.
+Print Assumptions C15_inverse_seq_map.
+
+(* index_attribute_to_map then map_attribute_to_index restores every entry of an index (inner key attribute
+   equal to the outer key) up to the position of the key attribute *)
+Theorem C15_inverse_index_map : forall a k va t ps m items ms,
+  get_attr_ps a ps = Ok (Map tag_map items ms) -> Forall (index_entry k va) items ->
+  exists n1 n2 items',
+    index_attribute_to_map a k va (Map t ps m) = Ok n1 /\
+    map_attribute_to_index a k va n1 = Ok n2 /\
+    n2 = Map t (set_attr_ps a (Map tag_map items' ms) ps) m /\
+    Forall2 (fun e' e => exists key mk ips im, e = (Scalar tag_str key mk, Map tag_map ips im) /\
+               fst e' = fst e /\
+               erase (snd e') = Map tag_map (erase_ps (without_key k ips ++ [(Scalar tag_str k nomark, Scalar tag_str key nomark)])) nomark)
+            items' items.
+Proof. exact inverse_index_map. Qed.
+Print Assumptions C15_inverse_index_map.
+
+(* the shape of each single transform is, by definition of the model, map s2m_entry / m2s_item / i2m_entry /
+   m2i_entry over the items; the short form is chosen only when the value attribute is the sole remaining key *)
+Theorem C15_short_form_only_when_sole : forall k v t ps m,
+  snd (s2m_entry k (Some v) (Map t ps m)) <> Map t (remove_first k ps) m ->
+  exists k1 v1, remove_first k ps = [(k1, v1)] /\ key_is v k1 = true /\ snd (s2m_entry k (Some v) (Map t ps m)) = v1.
+Proof.
+  intros k v t ps m H. unfold s2m_entry in *.
+  destruct (remove_first k ps) as [|[k1 v1] [|p r]] eqn:E; try (exfalso; apply H; reflexivity).
+  destruct (key_is v k1) eqn:K; [|exfalso; apply H; reflexivity].
+  exists k1, v1. auto.
+Qed.
+
+(* missing attribute, or attribute of the wrong kind: the node is returned unchanged, no exception *)
+Theorem C15_noop_missing : forall a k va strict t ps m, has_attr_ps a ps = false ->
+  seq_attribute_to_map a k va strict (Map t ps m) = Ok (Map t ps m) /\
+  map_attribute_to_seq a k va (Map t ps m) = Ok (Map t ps m) /\
+  index_attribute_to_map a k va (Map t ps m) = Ok (Map t ps m) /\
+  map_attribute_to_index a k va (Map t ps m) = Ok (Map t ps m).
+Proof.
+  intros. repeat split; [apply s2m_missing | apply m2s_missing | apply i2m_missing | apply m2i_missing]; assumption.
+Qed.
+Theorem C15_noop_wrong_kind : forall a k va strict t ps m v, get_attr_ps a ps = Ok v ->
+  (is_sequence v = false -> seq_attribute_to_map a k va strict (Map t ps m) = Ok (Map t ps m)) /\
+  (is_mapping v = false -> map_attribute_to_seq a k va (Map t ps m) = Ok (Map t ps m) /\
+                           index_attribute_to_map a k va (Map t ps m) = Ok (Map t ps m) /\
+                           map_attribute_to_index a k va (Map t ps m) = Ok (Map t ps m)).
+Proof.
+  intros a k va strict t ps m v H. split; intros Hk.
+  - eapply s2m_wrong_kind; eassumption.
+  - repeat split; [eapply m2s_wrong_kind | eapply i2m_wrong_kind | eapply m2i_wrong_kind]; eassumption.
+Qed.
+(* a sequence with an item that is not a mapping or lacks the key attribute is never converted *)
+Theorem C15_noop_bad_item : forall k strict items seen,
+  Exists (fun it => match it with Map _ ips _ => has_attr_ps k ips = false | _ => True end) items ->
+  forall ks, s2m_validate k strict seen items <> S2M_ok ks.
+Proof. intros. apply s2m_validate_bad_item; assumption. Qed.
+(* mappings with a non-mapping value are left alone when no value attribute is named (and always by
+   index_attribute_to_map) *)
+Theorem C15_noop_bad_value : forall a k t ps m items tt mm, get_attr_ps a ps = Ok (Map tt items mm) ->
+  forallb (fun kv => is_mapping (snd kv)) items = false ->
+  map_attribute_to_seq a k None (Map t ps m) = Ok (Map t ps m) /\
+  (forall va, index_attribute_to_map a k va (Map t ps m) = Ok (Map t ps m)) /\
+  map_attribute_to_index a k None (Map t ps m) = Ok (Map t ps m).
+Proof.
+  intros. repeat split; [eapply m2s_bad_value | intros; eapply i2m_bad_value | eapply m2i_bad_value]; eauto.
+Qed.
+(* the three mapping transforms never raise (given the attribute name occurs at most once) *)
+Theorem C15_mapping_transforms_total : forall a k va t ps m v,
+  (has_attr_ps a ps = false \/ get_attr_ps a ps = Ok v) ->
+  (exists r, map_attribute_to_seq a k va (Map t ps m) = Ok r) /\
+  (exists r, index_attribute_to_map a k va (Map t ps m) = Ok r) /\
+  (exists r, map_attribute_to_index a k va (Map t ps m) = Ok r).
+Proof. intros. eapply mapping_transforms_total; eassumption. Qed.
+(* duplicate keys: SeasoningError exactly in strict mode, silently nothing otherwise *)
+Theorem C15_duplicates_strict_only : forall k strict items keys, Forall2 (good_item k) items keys ->
+  s2m_validate k strict [] items =
+    (if keys_unique [] keys then S2M_ok keys else if strict then S2M_err else S2M_noop).
+Proof. intros. rewrite (s2m_validate_good k strict items keys [] H). reflexivity. Qed.
+
+(* unders_to_dashes_in_keys / dashes_to_unders_in_keys are inverse on keys free of the target character *)
+Theorem C15_dashes_unders_inverse : forall t ps m,
+  Forall (fun kv => match fst kv with Scalar _ v _ => ~ In 45 v | _ => False end) ps ->
+  exists n1, unders_to_dashes_in_keys (Map t ps m) = Ok n1 /\ dashes_to_unders_in_keys n1 = Ok (Map t ps m).
+Proof. intros. apply rewrite_keys_inverse. assumption. Qed.
+Theorem C15_unders_dashes_inverse : forall t ps m,
+  Forall (fun kv => match fst kv with Scalar _ v _ => ~ In 95 v | _ => False end) ps ->
+  exists n1, dashes_to_unders_in_keys (Map t ps m) = Ok n1 /\ unders_to_dashes_in_keys n1 = Ok (Map t ps m).
+Proof. intros. apply rewrite_keys_inverse. assumption. Qed.
+Print Assumptions C15_dashes_unders_inverse.
+
+(* non-vacuity: a two-item list, one short-form and one long-form item, round-trips *)
+Definition S_ (s : string) := Scalar tag_str (u s) nomark.
+Definition ex_items : list node :=
+  [Map tag_map [(S_ "id", S_ "a"); (S_ "v", S_ "x")] nomark;
+   Map tag_map [(S_ "v", S_ "y"); (S_ "id", S_ "b"); (S_ "w", S_ "z")] nomark].
+Example C15_ex : exists n1 n2,
+  seq_attribute_to_map (u "items") (u "id") (Some (u "v")) true (Map tag_map [(S_ "items", Seq tag_seq ex_items nomark)] nomark) = Ok n1 /\
+  n1 = Map tag_map [(S_ "items", Map tag_map [(S_ "a", S_ "x"); (S_ "b", Map tag_map [(S_ "v", S_ "y"); (S_ "w", S_ "z")] nomark)] nomark)] nomark /\
+  map_attribute_to_seq (u "items") (u "id") (Some (u "v")) n1 = Ok n2 /\
+  erase n2 = Map tag_map [(S_ "items", Seq tag_seq
+     [Map tag_map [(S_ "v", S_ "x"); (S_ "id", S_ "a")] nomark;
+      Map tag_map [(S_ "v", S_ "y"); (S_ "w", S_ "z"); (S_ "id", S_ "b")] nomark] nomark)] nomark.
+Proof. eexists. eexists. split; [vm_compute; reflexivity|]. split; [reflexivity|]. split; vm_compute; reflexivity. Qed.
